@@ -13,6 +13,8 @@ import (
 	"strings"
 	"sync"
 	"time"
+
+	"verif/nodexspec"
 )
 
 // Job is one unit of exploration handed to a worker process.
@@ -21,8 +23,9 @@ type Job struct {
 	Tier     string
 	Index    int
 	Name     string
-	Strategy string // "bfs" | "ddfs"
+	Strategy string // "bfs" | "ddfs" | "nodex"
 	Sc       *Scenario
+	Node     *nodexspec.Spec `json:",omitempty"` // strategy "nodex": exploration of the channel front end (node.go)
 	Mons     []string // monitor ids
 	Suffix   bool     // run the convergence suffix (C15) from every state / end state
 	Weight   int      // relative time share
@@ -170,6 +173,7 @@ type ReplayFile struct {
 	Detail   string
 	Job      *Job
 	Path     []Event
+	NodeOps  []nodexspec.Op `json:",omitempty"`
 	Trace    []string
 	Known    string `json:",omitempty"`
 }
@@ -318,6 +322,9 @@ func Check(prop, tier string, verifDir string, self string, procs int, budgetS f
 		s := map[string]any{"scenario": jr.job.Name, "strategy": r.Strategy, "states": r.States, "transitions": r.Transitions,
 			"max_depth": r.MaxDepth, "terminal_states": r.Terminal, "distinct_outcomes": len(r.Outcomes), "exhaustive": r.Exhaustive,
 			"wall_s": round1(r.WallS), "bounds": boundsOf(jr.job.Sc)}
+		if jr.job.Node != nil {
+			s["bounds"] = nodeBoundsOf(jr.job.Node)
+		}
 		if r.Strategy == "D-DFS" {
 			s["executions"] = r.Executions
 			s["deviation_bound_completed"] = r.DevBound
@@ -331,7 +338,7 @@ func Check(prop, tier string, verifDir string, self string, procs int, budgetS f
 		}
 		for _, f := range r.Found {
 			kid := attributeKnown(known, f, jr.job)
-			rf := &ReplayFile{Property: f.V.Prop, Oracle: f.V.Oracle, Detail: f.V.Detail, Job: jr.job, Path: f.Path, Trace: f.Trace, Known: kid}
+			rf := &ReplayFile{Property: f.V.Prop, Oracle: f.V.Oracle, Detail: f.V.Detail, Job: jr.job, Path: f.Path, NodeOps: f.NodeOps, Trace: f.Trace, Known: kid}
 			b, _ := json.MarshalIndent(rf, "", " ")
 			h := sha256.Sum256(b)
 			name := fmt.Sprintf("%s-%s.json", prop, hex.EncodeToString(h[:6]))
@@ -427,6 +434,107 @@ func Check(prop, tier string, verifDir string, self string, procs int, budgetS f
 	return 0
 }
 
+// runNodeWorker runs the Node explorer (a test binary, because testing/synctest bubbles
+// exist only there) next to this executable. With replay != nil it re-executes one
+// operation list instead of exploring.
+func runNodeWorker(self string, j *Job, replay []nodexspec.Op, isReplay bool) jobResult {
+	if isReplay && replay == nil {
+		replay = []nodexspec.Op{}
+	}
+	bin := filepath.Join(filepath.Dir(self), "nodex.test")
+	dir, err := os.MkdirTemp(filepath.Dir(self), "nodex-run-")
+	if err != nil {
+		return jobResult{job: j, err: "nodex: " + err.Error()}
+	}
+	defer os.RemoveAll(dir)
+	sp := *j.Node
+	sp.Seconds = j.Seconds
+	ws := nodexspec.WorkerSpec{Spec: &sp, Replay: replay}
+	b, _ := json.Marshal(&ws)
+	specPath, outPath := filepath.Join(dir, "spec.json"), filepath.Join(dir, "out.json")
+	os.WriteFile(specPath, b, 0o644)
+	cmd := exec.Command(bin, "-test.run", "^TestWorker$", "-test.timeout", "0")
+	cmd.Env = append(os.Environ(), "GOMAXPROCS=1", "NODEX_SPEC="+specPath, "NODEX_OUT="+outPath)
+	var stderr, stdout strings.Builder
+	cmd.Stderr, cmd.Stdout = &stderr, &stdout
+	done := make(chan error, 1)
+	if err := cmd.Start(); err != nil {
+		return jobResult{job: j, err: "nodex: cannot start " + bin + ": " + err.Error()}
+	}
+	go func() { done <- cmd.Wait() }()
+	hard := time.Duration((j.Seconds*1.5 + 60) * float64(time.Second))
+	select {
+	case err = <-done:
+	case <-time.After(hard):
+		cmd.Process.Kill()
+		<-done
+		return jobResult{job: j, err: "nodex worker exceeded its hard timeout"}
+	}
+	res := &Result{Scenario: j.Name, Strategy: "Node-BFS", Exhaustive: true, Outcomes: map[string]int64{}, Counters: map[string]int{}}
+	if err != nil {
+		// the process died: a panic on the Node's own goroutine cannot be recovered by the explorer
+		all := stdout.String() + stderr.String()
+		if i := strings.Index(all, "panic: "); i >= 0 && strings.Contains(all, "raft/v3.(*node).run") {
+			var ops []nodexspec.Op
+			if cur, e := os.ReadFile(outPath + ".cur"); e == nil {
+				json.Unmarshal([]byte(strings.TrimSpace(string(cur))), &ops)
+			}
+			var tr []string
+			for _, o := range ops {
+				tr = append(tr, o.String())
+			}
+			res.Exhaustive = false
+			res.Found = append(res.Found, &Found{V: &Violation{j.Prop, "node-goroutine-survives", "the Node's goroutine died: " + firstLine(all[i:])}, Scenario: j.Name, NodeOps: ops, Trace: tr})
+			return jobResult{job: j, res: res}
+		}
+		return jobResult{job: j, err: "nodex worker failed: " + err.Error() + ": " + lastLines(all, 6)}
+	}
+	raw, err := os.ReadFile(outPath)
+	if err != nil {
+		return jobResult{job: j, err: "nodex worker wrote no result: " + lastLines(stdout.String()+stderr.String(), 6)}
+	}
+	var out nodexspec.WorkerOut
+	if e := json.Unmarshal(raw, &out); e != nil {
+		return jobResult{job: j, err: "bad nodex output: " + e.Error()}
+	}
+	if isReplay {
+		if out.Violation != nil {
+			res.Found = append(res.Found, &Found{V: &Violation{out.Violation.Prop, out.Violation.Oracle, out.Violation.Detail}, Scenario: j.Name, NodeOps: replay, Trace: out.Trace})
+		}
+		return jobResult{job: j, res: res}
+	}
+	r := out.Result
+	res.States, res.Transitions, res.Replays, res.MaxDepth = r.States, r.Transitions, r.Replays, r.MaxDepth
+	res.Exhaustive, res.Caps, res.Outcomes, res.WallS, res.HarnessErr, res.Samples = r.Exhaustive, r.Caps, r.Outcomes, r.WallS, r.HarnessErr, r.Samples
+	for _, f := range r.Found {
+		if f.V.Prop != j.Prop {
+			// reported by the check of the property the oracle belongs to
+			res.Counters["node_violations_of_other_properties("+f.V.Prop+")"]++
+			continue
+		}
+		res.Found = append(res.Found, &Found{V: &Violation{f.V.Prop, f.V.Oracle, f.V.Detail}, Scenario: j.Name, NodeOps: f.Ops, Trace: f.Trace})
+	}
+	// a violation has to reproduce on every one of five fresh re-executions
+	for _, f := range res.Found {
+		for k := 0; k < 5; k++ {
+			rr := runNodeWorker(self, j, f.NodeOps, true)
+			if rr.err != "" || rr.res == nil || len(rr.res.Found) == 0 || rr.res.Found[0].V.Oracle != f.V.Oracle {
+				res.HarnessErr = fmt.Sprintf("violation %s does not reproduce on replay %d", f.V, k)
+				break
+			}
+		}
+	}
+	return jobResult{job: j, res: res}
+}
+
+func lastLines(s string, n int) string {
+	ls := strings.Split(strings.TrimSpace(s), "\n")
+	if len(ls) > n {
+		ls = ls[len(ls)-n:]
+	}
+	return strings.Join(ls, " | ")
+}
+
 func firstLine(s string) string {
 	if i := strings.IndexByte(s, '\n'); i >= 0 {
 		return s[:i]
@@ -436,7 +544,17 @@ func firstLine(s string) string {
 
 func round1(f float64) float64 { return float64(int(f*10)) / 10 }
 
+func nodeBoundsOf(sp *nodexspec.Spec) map[string]any {
+	return map[string]any{"interface": "raft.Node (node.go) inside a testing/synctest bubble, one client operation at a time", "voters": sp.Voters,
+		"operation_sequences_up_to_length": sp.Depth, "alphabet_size": len(sp.Ops), "prefix_operations": len(sp.Prefix), "async_storage_writes": sp.Async,
+		"prevote_checkquorum": sp.PreVote, "max_proposals": sp.MaxProposals, "max_reads": sp.MaxReads, "conf_menu": sp.ConfMenu,
+		"oracle": "state behind the Node, everything it handed out and every return value equal a reference RawNode driven by the same operations"}
+}
+
 func boundsOf(sc *Scenario) map[string]any {
+	if sc == nil {
+		return nil
+	}
 	m := map[string]any{"nodes": sc.N, "voters": sc.Voters}
 	if len(sc.Learners) > 0 {
 		m["learners"] = sc.Learners
@@ -480,6 +598,9 @@ func boundsOf(sc *Scenario) map[string]any {
 }
 
 func runWorker(self string, j *Job) jobResult {
+	if j.Strategy == "nodex" {
+		return runNodeWorker(self, j, nil, false)
+	}
 	spec, _ := json.Marshal(j)
 	cmd := exec.Command(self, "worker")
 	cmd.Stdin = strings.NewReader(string(spec))
@@ -545,6 +666,23 @@ func ReplayMain(path string, verbose bool) int {
 		return 2
 	}
 	j := rf.Job
+	if j.Strategy == "nodex" {
+		for _, l := range rf.Trace {
+			fmt.Println(l)
+		}
+		self, _ := os.Executable()
+		rr := runNodeWorker(self, j, rf.NodeOps, true)
+		if rr.err != "" {
+			fmt.Println(rr.err)
+			return 2
+		}
+		if len(rr.res.Found) > 0 {
+			fmt.Printf("REPRODUCED %s\n", rr.res.Found[0].V)
+			return 1
+		}
+		fmt.Println("not reproduced on the current tree")
+		return 0
+	}
 	mf := MonitorsByName(j.Mons)
 	var trace []string
 	if j.Strategy == "ddfs" {
